@@ -100,6 +100,42 @@ PROPS = {
         "converged <-> the test holds at the end index; num_iterations, initial_chi2=c 0, final_chi2=c(end), len(iteration_results), iteration_results[j].chi2=c(j+1); max_iter=0 raises IndexError; over R: tol=0 and chi2>=0 never stops early; split runs consume the same chi2 sequence.",
         level_note="State-level 'no hidden state / verbose has no effect' is checked on the real code by the search every run (bitwise pose comparison), not proved.",
     ),
+    "C15": dict(
+        modules=["GraphSlam.Props.C15"],
+        theorem_files=["GraphSlam/Props/C15/*.lean"],
+        scan_files=["GraphSlam/Core/*.lean", "GraphSlam/Model/NumJac.lean", "GraphSlam/Model/Assembly.lean", "GraphSlam/Props/C16/*.lean", "GraphSlam/Props/C06/*.lean"],
+        corr=[("harness.entry", "purity", dict()), ("harness.entry", "numjac", dict(quick=25, thorough=800))],
+        search=("search.entry", "c15"),
+        replay=("search.entry", "replay_generic"),
+        rule="random interleavings of 21 operation kinds (errors, chi2, analytic and numerical Jacobians, gradient/Hessian contributions, assembly, equals, exports, copies, pose operators, +=, optimize) on real graphs; "
+        "after every operation a bitwise snapshot of all arrays/flags/ids/object identities is compared with the prediction (unchanged for queries), calls are repeated (identical results), returned arrays are overwritten "
+        "in place to expose aliasing; non-trivial = one operation",
+        assumptions=["SE(2) angles in range (every pose the library produces is: C11)"],
+        proved_level="partial",
+        unproved=["numpy object semantics (fresh array vs view, in-place +=, attribute rebinding) are modelled as value semantics; aliasing is only observed by the trace harness"],
+        technique="Lean 4 proof: frame conditions of hand models (perturb/restore loop of _calc_jacobian, update loop) for all histories; numpy aliasing observed by a bitwise trace check",
+        level_text="Proved: the numerical-differentiation loop returns the store exactly as it found it for every pose type (copy p = p discharged for the generated copy of R2/R3/SE3, and SE2 in range), for any error function and any number of vertices; "
+        "optimize preserves the vertex layout and every fixed pose for any solver behaviour and iteration count; operators are functions of their operands in the model. PARTIAL: aliasing/in-place behaviour of numpy objects is checked by the trace harness only.",
+        level_note="Partial by nature: the property is largely about runtime object behaviour; the logic part is proved, the rest explored on every run.",
+    ),
+    "C16": dict(
+        modules=["GraphSlam.Props.C16"],
+        theorem_files=["GraphSlam/Props/C16/*.lean"],
+        scan_files=["GraphSlam/Core/*.lean", "GraphSlam/Model/NumJac.lean", "GraphSlam/Real/Instance.lean"],
+        corr=[("harness.entry", "numjac", dict(quick=40, thorough=1500))],
+        search=("search.entry", "c16"),
+        always_search=True,
+        replay=("search.entry", "replay_generic"),
+        rule="BaseEdge.calc_jacobians (numerical path) on every edge of random graphs (built-in edges of all type combinations, custom unary/binary/ternary distance edges over all four pose types): shape, "
+        "perturbed pose vs generated box-plus, every column bit-equal to Model.fdColumn on the implementation's perturbed error, store restored bitwise; non-trivial = one edge",
+        assumptions=["the custom error function is C^2 along box-plus with second derivative bounded by M on [0, 1e-6] (hypothesis of the accuracy theorem)", "real arithmetic: cancellation error of the float difference quotient is not covered"],
+        proved_level="partial",
+        unproved=["'graphs built from such edges converge to the same optimum' is a convergence statement (see C05): explored by optimising twin graphs, not proved"],
+        technique="Lean 4 proof: loop induction for the model of _calc_jacobian; mean-value inequality (Mathlib) for the forward-difference error bound; tied by bit-exact correspondence",
+        level_text="Proved: for any error function over any number of vertices of any pose types, the model of _calc_jacobian returns shape err.shape+(dim,) with column d = (err(p [+] eps e_d) - err(p))/eps and restores the store; "
+        "a forward difference of a C^2 function with |f''|<=M on [0,eps] is within M*eps of the derivative, hence each entry is within M*1e-6 of the true box-plus derivative. PARTIAL: the convergence clause is explored (twin graphs), not proved.",
+        level_note="Hand model tied by tools/harness/numjac.py (bitwise).",
+    ),
     "C09": dict(
         modules=["GraphSlam.Props.C09"],
         theorem_files=["GraphSlam/Props/C09/*.lean", "GraphSlam/Props/C10/SE3Boxplus.lean"],
